@@ -15,6 +15,11 @@
 #include "../genlib/setters.h"
 #include "../genlib/render.h"
 #include "../ref/pcapfile.h"
+#include "../ref/dissect.h"
+#include "../ref/wire_positions.h"
+#include <tins/offline_packet_filter.h>
+#include <tins/data_link_type.h>
+#include <pcap.h>
 #include <tins/tins.h>
 #include <tins/tcp_ip/flow.h>
 #include <tins/tcp_ip/data_tracker.h>
@@ -101,6 +106,18 @@ namespace w07 {
 namespace w14 {
 #include "c14.cpp"
 }
+namespace w04 {
+#include "c04.cpp"
+}
+namespace w05 {
+#include "c05.cpp"
+}
+namespace w11 {
+#include "c11.cpp"
+}
+namespace w15 {
+#include "c15.cpp"
+}
 #undef PROP_ID
 #undef PROP_MAXLEN_QUICK
 #undef PROP_MAXLEN_THOROUGH
@@ -139,6 +156,10 @@ std::vector<Sub>& subs() {
         {"C19", w19::prop, w19::prop_setup, 200, nullptr, {}},
         {"C07", w07::prop, w07::prop_setup, 400, nullptr, {}},
         {"C14", w14::prop, w14_setup, 300, "corpus/C14", {}},
+        {"C04", w04::prop, no_setup, 400, nullptr, {}},
+        {"C05", w05::prop, w05::prop_setup, 400, nullptr, {}},
+        {"C11", w11::prop, w11::prop_setup, 300, "corpus/C11", {}},
+        {"C15", w15::prop, w15::prop_setup, 200, nullptr, {}},
     };
     return S;
 }
